@@ -1,4 +1,5 @@
 import Glom.Model.C06Heap
+import Glom.Spec.C06
 /-
   C06 — "inputs untouched", as a user would say it, for the heap model of `Model/C06Heap.lean`:
 
@@ -16,8 +17,9 @@ import Glom.Model.C06Heap
 namespace Glom.C06
 open Glom
 
-/-- the heap only grew: every cell that existed is what it was (no write to any existing cell) -/
-def Ext (h h' : Heap) : Prop := ∃ ext, h' = h ++ ext
+/-- no object that existed was written: every address of `h` holds in `h'` the cell it held (objects
+    created since may have been written any number of times) -/
+def Ext (h h' : Heap) : Prop := h.length ≤ h'.length ∧ ∀ a, a < h.length → h'[a]? = h[a]?
 
 /-- a value that is not an object older than address `n` -/
 def FreshFrom (n : Nat) (v : Val) : Prop := ∀ a, v = .ref a → n ≤ a
@@ -44,9 +46,10 @@ def Sp.newArg : Sp → Bool
   | .seq _ _ => true
   | .dict _ => true
   | .coalesce subs hd d => subs.allNew && (!hd || d.newArg)
+  | .call fn _ => fnNew fn
 /-- in AUTO mode -/
 def Sp.mustBeNew : Sp → Bool
-  | .lit _ => false
+  | .lit v => (match v with | .fn name => fnNew name | _ => false)
   | .t steps => steps.endsArith
   | .seq k xs => (match k with
     | .list => true
@@ -54,6 +57,7 @@ def Sp.mustBeNew : Sp → Bool
     | _ => false)
   | .dict _ => true
   | .coalesce subs hd d => subs.allNew && (!hd || d.newArg)
+  | .call fn _ => fnNew fn
 def Sps.allNew : Sps → Bool
   | .nil => true
   | .cons x r => x.mustBeNew && r.allNew
@@ -109,6 +113,7 @@ def Sp.closed (n : Nat) : Sp → Bool
   | .seq _ xs => xs.closed n
   | .dict es => es.closed n
   | .coalesce subs _ d => subs.closed n && d.closed n
+  | .call _ args => args.closed n
 def Sps.closed (n : Nat) : Sps → Bool
   | .nil => true
   | .cons x r => x.closed n && r.closed n
@@ -142,5 +147,56 @@ def outView (fuel : Nat) (o : Out) : Except Err6 (Option PV) := o.1.map (view6 o
     builds anew is not an old object -/
 def checkArith (h : Heap) (sp : Sp) (obs : ArithObs) : Bool :=
   decide (obs.heapAfter = h) && (!sp.mustBeNew || !obs.resultOld)
+
+/-! ### histories that mix both kinds of events
+
+  What a process does between two observations: cache-level events (a call as an adaptive strategy
+  over path / handler queries, a PATH_STAR toggle, a registration — `HOp`) and heap-level calls (a
+  spec of the heap model on a target).  The state is the product: the library's shared state
+  (`World`) and the heap.  A cache-level event does not touch the heap and a heap-level call makes no
+  cache query (its list specs iterate with the default `iterate` handler: see Limits), so the
+  product is the composition. -/
+
+inductive MOp (P H O R : Type) where
+  | cache (op : HOp P H O R)
+  | heap (sp : Sp) (tgt : Val)
+
+/-- what one event of a mixed history shows -/
+inductive MOut (O : Type) where
+  | call (o : Option O)                          -- the outcome of a cache-level call
+  | heapCall (o : Except Err6 (Option PV))       -- the outcome of a heap-level call, as an observer sees it
+
+variable {P H O R : Type}
+
+def runMixed (parse : Bool → String → P) (compute : R → String × String → Option H) (maxCache fuel : Nat) :
+    World P H R × Heap → List (MOp P H O R) → List (MOut O) × (World P H R × Heap)
+  | s, [] => ([], s)
+  | (w, h), .cache op :: rest =>
+    let (o, w') := stepWorld parse compute maxCache w op
+    let (os, s') := runMixed parse compute maxCache fuel (w', h) rest
+    (match o with | some x => .call x :: os | none => os, s')
+  | (w, h), .heap sp tgt :: rest =>
+    let out := evalAuto sp tgt h
+    let (os, s') := runMixed parse compute maxCache fuel (w, out.2) rest
+    (.heapCall (outView fuel out) :: os, s')
+
+/-- the reference: no caches, and every heap-level call made first, in the heap `h0` the history
+    started from -/
+def refMixed (parse : Bool → String → P) (compute : R → String × String → Option H) (fuel : Nat) (h0 : Heap) :
+    Bool → (Nat → R) → List (MOp P H O R) → List (MOut O)
+  | _, _, [] => []
+  | star, reg, .cache (.call strat f) :: rest =>
+    .call (runPure parse compute strat star reg f []) :: refMixed parse compute fuel h0 star reg rest
+  | _, reg, .cache (.setStar b) :: rest => refMixed parse compute fuel h0 b reg rest
+  | star, reg, .cache (.register rg f) :: rest => refMixed parse compute fuel h0 star (setAt reg rg (f (reg rg))) rest
+  | star, reg, .heap sp tgt :: rest =>
+    .heapCall (outView fuel (evalAuto sp tgt h0)) :: refMixed parse compute fuel h0 star reg rest
+
+/-- the heap-level calls of a history are in the domain of the heap theorems: no mutating callable,
+    target and the spec's own objects in the initial heap -/
+def mixedOk (n : Nat) : List (MOp P H O R) → Bool
+  | [] => true
+  | .cache _ :: rest => mixedOk n rest
+  | .heap sp tgt :: rest => sp.pureCalls && sp.closed n && Val.closed6 n tgt && mixedOk n rest
 
 end Glom.C06
